@@ -711,6 +711,9 @@ def run(ctx):
     from ..registry import build_registry
     from .c12 import r12k
     r12k(ctx, build_registry(ctx.repo))
+    # fill() without a document reads the headings under self.document_body: that lookup must be evaluated on the tree the TOC sits in now, not remembered from the tree it sat in first (rule shared with C14)
+    from .c14 import r14i
+    r14i(ctx)
 
 
 from ..selftest import Seed, unparse_seed  # noqa: E402
